@@ -217,6 +217,12 @@ impl<'a> LeafNode<'a> {
             "expected BTreeLeaf page, got {:?}",
             header.page_type()
         );
+        // every accessor indexes the slot array with cell_count as its bound
+        ensure!(
+            LEAF_CONTENT_START + header.cell_count() as usize * SLOT_SIZE <= PAGE_SIZE,
+            "corrupted leaf page: cell count {} does not fit the page",
+            header.cell_count()
+        );
         Ok(Self { data })
     }
 
@@ -355,6 +361,12 @@ impl<'a> LeafNodeMut<'a> {
             header.page_type() == PageType::BTreeLeaf,
             "expected BTreeLeaf page, got {:?}",
             header.page_type()
+        );
+        // every accessor indexes the slot array with cell_count as its bound
+        ensure!(
+            LEAF_CONTENT_START + header.cell_count() as usize * SLOT_SIZE <= PAGE_SIZE,
+            "corrupted leaf page: cell count {} does not fit the page",
+            header.cell_count()
         );
         Ok(Self { data })
     }
